@@ -46,10 +46,12 @@ func (c *inlineShutdownConn) ReadFrom(p []byte) (int, net.Addr, error) {
 }
 func (c *inlineShutdownConn) WriteTo(p []byte, addr net.Addr) (int, error) { return len(p), nil }
 func (c *inlineShutdownConn) Close() error                                 { atomic.StoreInt32(&c.closed, 1); return nil }
-func (c *inlineShutdownConn) LocalAddr() net.Addr                          { return &net.UDPAddr{IP: net.IPv4(127, 0, 0, 1), Port: 1812} }
-func (c *inlineShutdownConn) SetDeadline(time.Time) error                  { return nil }
-func (c *inlineShutdownConn) SetReadDeadline(time.Time) error              { return nil }
-func (c *inlineShutdownConn) SetWriteDeadline(time.Time) error             { return nil }
+func (c *inlineShutdownConn) LocalAddr() net.Addr {
+	return &net.UDPAddr{IP: net.IPv4(127, 0, 0, 1), Port: 1812}
+}
+func (c *inlineShutdownConn) SetDeadline(time.Time) error      { return nil }
+func (c *inlineShutdownConn) SetReadDeadline(time.Time) error  { return nil }
+func (c *inlineShutdownConn) SetWriteDeadline(time.Time) error { return nil }
 
 // Schedule: datagram received -> (its goroutine not yet scheduled: one P, Serve called synchronously) -> Shutdown
 // requested -> Serve returns -> Shutdown(Background). That call may return nil only after the handler of the
@@ -90,8 +92,112 @@ func scenarioReceivedBeforeShutdown() (bool, string) {
 	return true, ""
 }
 
+// a listener shared by two Serve calls: ReadFrom hands one permanent error to whoever reads first, then blocks until closed
+type sharedConn struct {
+	errOnce chan struct{}
+	closed  chan struct{}
+	nclose  int32
+	plain   bool // after Close, ReadFrom fails with an error that is not a net.Error
+}
+
+func (c *sharedConn) ReadFrom(p []byte) (int, net.Addr, error) {
+	select {
+	case <-c.errOnce:
+		return 0, nil, &net.OpError{Op: "read", Net: "udp", Err: fmt.Errorf("permanent failure")}
+	case <-c.closed:
+		if c.plain {
+			return 0, nil, io.ErrClosedPipe
+		}
+		return 0, nil, closedErr{}
+	}
+}
+func (c *sharedConn) WriteTo(p []byte, addr net.Addr) (int, error) { return len(p), nil }
+func (c *sharedConn) Close() error {
+	if atomic.AddInt32(&c.nclose, 1) == 1 {
+		close(c.closed)
+	}
+	return nil
+}
+func (c *sharedConn) LocalAddr() net.Addr {
+	return &net.UDPAddr{IP: net.IPv4(127, 0, 0, 1), Port: 1812}
+}
+func (c *sharedConn) SetDeadline(time.Time) error      { return nil }
+func (c *sharedConn) SetReadDeadline(time.Time) error  { return nil }
+func (c *sharedConn) SetWriteDeadline(time.Time) error { return nil }
+
+// two Serve calls on one listener; one of them ends with a read error; Shutdown must still close the listener
+// (it is still registered by the other call) and the other call must return ErrServerShutdown
+func scenarioSharedListener() (bool, string) {
+	srv := &radius.PacketServer{ErrorLog: log.New(io.Discard, "", 0), SecretSource: radius.StaticSecretSource([]byte("s")),
+		Handler: radius.HandlerFunc(func(w radius.ResponseWriter, r *radius.Request) {})}
+	conn := &sharedConn{errOnce: make(chan struct{}, 1), closed: make(chan struct{})}
+	r1, r2 := make(chan error, 1), make(chan error, 1)
+	go func() { r1 <- srv.Serve(conn) }()
+	go func() { r2 <- srv.Serve(conn) }()
+	time.Sleep(50 * time.Millisecond) // both are reading
+	conn.errOnce <- struct{}{}
+	var first error
+	var other chan error
+	select {
+	case first = <-r1:
+		other = r2
+	case first = <-r2:
+		other = r1
+	case <-time.After(3 * time.Second):
+		return false, "no Serve call returned after a permanent read error"
+	}
+	if first == nil || first == radius.ErrServerShutdown {
+		return false, fmt.Sprintf("the Serve call that got the read error returned %v", first)
+	}
+	ctx, cancel := context.WithTimeout(context.Background(), 3*time.Second)
+	defer cancel()
+	err := srv.Shutdown(ctx)
+	if atomic.LoadInt32(&conn.nclose) == 0 {
+		return false, fmt.Sprintf("Shutdown (= %v) did not close a listener that a running Serve call still uses", err)
+	}
+	select {
+	case e := <-other:
+		if e != radius.ErrServerShutdown {
+			return false, fmt.Sprintf("the remaining Serve call returned %v, want ErrServerShutdown", e)
+		}
+	case <-time.After(3 * time.Second):
+		return false, "the remaining Serve call did not return after Shutdown"
+	}
+	if err != nil {
+		return false, fmt.Sprintf("Shutdown = %v, want nil", err)
+	}
+	return true, ""
+}
+
+// after Shutdown has closed the listener, whatever error ReadFrom then reports, Serve returns ErrServerShutdown
+func scenarioPlainCloseError() (bool, string) {
+	srv := &radius.PacketServer{ErrorLog: log.New(io.Discard, "", 0), SecretSource: radius.StaticSecretSource([]byte("s")),
+		Handler: radius.HandlerFunc(func(w radius.ResponseWriter, r *radius.Request) {})}
+	conn := &sharedConn{errOnce: make(chan struct{}, 1), closed: make(chan struct{}), plain: true}
+	r1 := make(chan error, 1)
+	go func() { r1 <- srv.Serve(conn) }()
+	time.Sleep(50 * time.Millisecond)
+	ctx, cancel := context.WithTimeout(context.Background(), 3*time.Second)
+	defer cancel()
+	err := srv.Shutdown(ctx)
+	select {
+	case e := <-r1:
+		if e != radius.ErrServerShutdown {
+			return false, fmt.Sprintf("Serve returned %v, want ErrServerShutdown", e)
+		}
+	case <-time.After(3 * time.Second):
+		return false, fmt.Sprintf("Serve did not return after Shutdown (= %v) closed a listener whose read then fails with a plain error", err)
+	}
+	if err != nil {
+		return false, fmt.Sprintf("Shutdown = %v, want nil", err)
+	}
+	return true, ""
+}
+
 func init() {
 	scenarios["c07-received-before-shutdown"] = scenarioReceivedBeforeShutdown
+	scenarios["c07-shared-listener"] = scenarioSharedListener
+	scenarios["c07-plain-close-error"] = scenarioPlainCloseError
 }
 
 // runSubScenario runs a scenario in a child process; a crash of the child is a finding, not a crash of the harness
